@@ -173,6 +173,26 @@ CHECKS = {
              "420 KB bursts, the server withholding traffic until acknowledged; a stall is declared only on a logical condition "
              "(client in selector, recv count frozen, FIONREAD or SSL pending > 0), a plain time-out is 'inconclusive'.",
         note="TLS model follows OpenSSL's SSL_read/SSL_pending contract; KQueueSelector cannot be instantiated on Linux."),
+    "C11": dict(
+        category="exploration", design_ref="DESIGN.md section 3 / C11",
+        technique="systematic schedule enumeration under a deterministic thread scheduler (all single preemptions, all pairs for 2-thread scenarios) + Hypothesis-drawn schedules; wire decoded by independent codec and RFC 7692 peer",
+        text="Real threads are serialised by a harness-owned scheduler with yield points at every source line inside lomond, at every "
+             "lock acquisition and in the middle of every sendall, so an execution is a pure function of the schedule. For 10 "
+             "scenarios (2-3 sender threads, 1-3 sends each, with/without compression context takeover, event loop answering Pings or "
+             "sending an automatic Ping) every thread order x every effective single preemption is enumerated in both tiers, every "
+             "pair of preemptions for the four 2x1 scenarios in the thorough tier, and Hypothesis draws schedules with up to 8 "
+             "preemptions. The resulting byte stream must decode into whole valid frames holding exactly the messages sent, each "
+             "thread's in call order, and an RFC 7692 peer must inflate every compressed frame in wire order.",
+        note="Granularity is the source line (+ lock acquisition, mid-sendall); switches inside a line or inside C calls are not explored; exhaustive only up to the stated preemption bound."),
+    "C12": dict(
+        category="exploration", design_ref="DESIGN.md section 3 / C12",
+        technique="systematic schedule enumeration under the deterministic thread scheduler (all single preemptions, pairs for 4 scenarios) + Hypothesis-drawn schedules; invariant over the decoded wire log and call results",
+        text="Same scheduler as C11. 12 scenarios race close() with send_text/send_binary/send_ping/close() on 2-3 threads and with "
+             "the event-loop thread echoing a server Close, completing the closing handshake, answering a Ping or crossing a ping "
+             "deadline. Every thread order x every effective single preemption (both tiers), every pair for four scenarios "
+             "(thorough), random schedules up to 8 preemptions. Invariant: at most one Close frame on the wire, nothing after it, "
+             "each racing send either wrote its frame before the Close or raised a WebSocketError and wrote nothing.",
+        note="Same granularity limits as C11."),
 }
 
 PENDING = {}
